@@ -540,7 +540,8 @@ def requests_for(case, obs):
     cfg = wire_cfg(case)
     return [{'p': 'C15', 'k': 'run', 'cfg': cfg, 'log': obs['log'], 'shutdown': obs['shutdown']},
             {'p': 'C15', 'k': 'judge', 'cfg': cfg, 'modules': obs['modules'], 'errors': obs['errors'],
-             'log': obs['log'], 'ioDict': obs['ioDict']}]
+             'log': obs['log'], 'ioDict': obs['ioDict']},
+            {'p': 'C15', 'k': 'me_follow', 'trace': obs['metrace']}]
 
 
 def model_view(model):
@@ -780,9 +781,9 @@ def run(ctx):
     answers = ctx.driver.batch(reqs, timeout=600)
     seen_sigs = set()
     for j, (kind, case, obs) in enumerate(metas):
-        model, judge = answers[2 * j], answers[2 * j + 1]
-        if 'driver_error' in model or 'driver_error' in judge:
-            raise RuntimeError(f'driver error: {model} {judge} {json.dumps(case)}')
+        model, judge, follow = answers[3 * j], answers[3 * j + 1], answers[3 * j + 2]
+        if 'driver_error' in model or 'driver_error' in judge or 'driver_error' in follow:
+            raise RuntimeError(f'driver error: {model} {judge} {follow} {json.dumps(case)}')
         res.evaluations += 1
         res.traces += 1
         specs = case['mods'] + case.get('dyn', [])
@@ -804,6 +805,10 @@ def run(ctx):
                 res.disagreements.append({'case': case, 'model': 'fuel exhausted', 'impl': None})
             else:
                 d = first_diff(model_view(model), impl_view(obs))
+                if d is None and follow['stuck'] is not None:
+                    i = follow['stuck']
+                    d = {'field': 'multievent-trace', 'index': i, 'model': 'label not enabled in the MultiEvent protocol',
+                         'impl': obs['metrace'][max(0, i - 3):i + 2]}
                 if d is not None:
                     res.disagreements.append({'case': case, 'model': d.get('model'), 'impl': d.get('impl'),
                                               'where': {k: v for k, v in d.items() if k not in ('model', 'impl')}})
@@ -834,6 +839,7 @@ def replay(ctx, rp):
     print('errors :', obs['errors'], ' modules:', obs['modules'])
     print('model  :', ' '.join('.'.join(e) for e in canon_log(a[0].get('log', []))), a[0].get('errors'))
     print('judge  :', a[1])
+    print('multievent trace followed by the model:', a[2].get('stuck') is None, a[2])
     clause = (rp.get('detail') or {}).get('clause')
     failed = a[1].get('failed', ['driver_error'])
     if obs['crash'] or obs['thread_errors']:
